@@ -7,6 +7,9 @@ props = [json.loads(l) for l in open('/verif/properties.jsonl')]
 
 # id -> (technique, level text, level note, design ref)
 CHECKS = {
+ "C14": ("complete enumeration of the endpoint space (2688 endpoints: verb x input x query-parameter subset x return kind) x 2 argument vectors; every generated method is executed under Node against a recording stand-in for axios and compared with the request computed from the endpoint",
+         "verb, URL, body (JSON / FormData entries in order / null / absent), params with per-kind stringification, responseType, headers, returned value, startRequest; type declarations parsed by tsparse (valid, once, every type a signature mentions); endpoint lists extracted from F-routes programs also generate a well-formed client",
+         "node/ts2js.js strips type annotations of the fixed class template; JSON/form inputs combined with POST/PUT only", "DESIGN.md §4 C14"),
  "C06": ("bounded exhaustive program enumeration (F-types incl. second analysed file and both root shapes, F-union, F-enum) with a structured scan of the Dart files (dartscan) compared with go/types",
          "every program within 2 / 3 deviations: constructor arity and order, implements clauses, union dispatch (cases, is-branches, Kind strings), enum value tables / index mapping, every identifier each file uses defined exactly once in it or in one imported generated file, no self-import, one file per package",
          "Dart is not executed (no SDK offline); struct JSON keys are decided in C09", "DESIGN.md §4 C06"),
